@@ -35,6 +35,8 @@ pub struct GenOpts {
     pub hostile_reads: f64,
     /// Probability of a graph at the validator's limits (200 / 999 / 1000 nodes; chains and fans).
     pub big_graphs: f64,
+    /// Probability that the set lists one solution twice (a set is validated as a list: duplicates are accepted).
+    pub p_dup_solution: f64,
 }
 
 impl Default for GenOpts {
@@ -51,6 +53,7 @@ impl Default for GenOpts {
             hostile_outputs: 0.02,
             hostile_reads: 0.0,
             big_graphs: 0.0,
+            p_dup_solution: 0.0,
         }
     }
 }
@@ -549,6 +552,14 @@ pub fn gen_scenario(r: &mut Rng, o: &GenOpts) -> Scenario {
         }
         solutions.push(Solution { predicate_to_solve: addr, predicate_data: data, state_mutations: muts });
         sol_pred.push(p);
+    }
+    if solutions.len() < 100 && r.chance(o.p_dup_solution) {
+        // the same solution once more, anywhere in the list (adjacent to its twin or not)
+        let i = r.below(solutions.len());
+        let at = r.below(solutions.len() + 1);
+        let (s, p) = (solutions[i].clone(), sol_pred[i]);
+        solutions.insert(at, s);
+        sol_pred.insert(at, p);
     }
     Scenario {
         predicates,
